@@ -71,17 +71,22 @@ def rec_fit(args):
     pai = pa if fixp else pa + 0.15
     if c.get('start') == 'perp':
         pai = pa + math.pi / 2 + 0.1
+    rnd = c.get('start') == 'round'        # a very flat galaxy started from a much rounder guess (right PA, centre on the nearest pixel)
+    if rnd:
+        epsi = [0.3, 0.4, 0.5][c['pa'] % 3]
+        pai = pa
+        x0i, y0i = float(round(cx)), float(round(cy))
     lingeo = c['mode'] == 'linear_geometry'      # the documented way to ask for linear growth: a geometry with astep in pixels
     linear = c['mode'] == 'linear_growth' or lingeo
     step = 2.0 if linear else 0.15
     minsma, maxsma = 4.0 * sc, 26.0 * sc
     if big and not linear:
         step = 0.2
-    rec = {'id': idx, 'kind': 'fit', 'raised': False, 'demand_fit': c['eps'] <= 50, 'fix_center': fixc, 'fix_pa': fixp, 'fix_eps': fixe, 'params': c}
+    rec = {'id': idx, 'kind': 'fit', 'raised': False, 'demand_fit': c['eps'] <= 50 or rnd, 'fix_center': fixc, 'fix_pa': fixp, 'fix_eps': fixe, 'params': c}
     try:
-        g = EllipseGeometry(x0i, y0i, 10.0 * sc, epsi, pai) if not lingeo else EllipseGeometry(x0i, y0i, 10.0 * sc, epsi, pai, astep=2.0, linear_growth=True)
+        g = EllipseGeometry(x0i, y0i, (10.0 * sc if not rnd else [50.0, 45.0, 40.0][c['pa'] % 3]), epsi, pai) if not lingeo else EllipseGeometry(x0i, y0i, 10.0 * sc, epsi, pai, astep=2.0, linear_growth=True)
         el = Ellipse(img, g)
-        iso = el.fit_image(sma0=10.0 * sc, minsma=minsma, maxsma=maxsma, step=step, linear=(None if lingeo else linear),
+        iso = el.fit_image(sma0=(10.0 * sc if not rnd else [50.0, 45.0, 40.0][c['pa'] % 3]), minsma=minsma, maxsma=maxsma, step=step, linear=(None if lingeo else linear),
                            integrmode='nearest_neighbor' if c['mode'] == 'nearest' else (c['mode'] if c['mode'] in ('mean', 'median') else 'bilinear'),
                            fix_center=fixc, fix_pa=fixp, fix_eps=fixe, maxrit=(13.0 if c['mode'] == 'maxrit' else None))
         n = len(iso)
@@ -101,7 +106,7 @@ def rec_fit(args):
         # (with bilinear sampling and a position angle away from 0 every such isophote is demanded to be right whatever its stop code:
         # on a noise-free ellipse the fit has no excuse; at PA = 0 - see the known finding - and for the coarser modes only converged ones)
         strict = c['mode'] in ('bilinear', 'linear_growth', 'linear_geometry', 'mean', 'median') and c['pa'] != 0
-        rec['well'] = [bool((i.stop_code == 0 or strict) and 6.0 * sc <= i.sma <= (12.0 if c['mode'] == 'maxrit' else 22.0) * sc and i.valid and c['fix'] == 'none' and c['eps'] <= 50) for i in iso]
+        rec['well'] = [bool((i.stop_code == 0 or strict) and 6.0 * sc <= i.sma <= (12.0 if c['mode'] == 'maxrit' else 22.0) * sc and i.valid and c['fix'] == 'none' and (c['eps'] <= 50 or rnd)) for i in iso]
         # nearest-neighbour sampling reads pixel values up to half a pixel off the ellipse: 5 % on steep profiles (2 % for bilinear)
         rec['intens_tol'] = 820 if c['mode'] == 'nearest' else 330
         rec['stops'] = [int(i.stop_code) for i in iso if 6.0 * sc <= i.sma <= 22.0 * sc]
@@ -164,6 +169,8 @@ def run(ctx):
     edge = [c for c in lat if c.get('start') != 'perp' and c['frame'] in ('nearleft', 'nearbottom', 'largeleft', 'largebottom')]
     edge.sort(key=lambda c: c['frame'].startswith('large') and c['mode'] in ('mean', 'median'), reverse=True)       # large sectors first
     large = [c for c in lat if c.get('start') != 'perp' and c['frame'] == 'large']
+    large.sort(key=lambda c: c.get('start') == 'round', reverse=True)
+    large = large[:3] + [c for c in large[3:] if c.get('start') != 'round']      # a few flat galaxies from round guesses first
     near = [c for c in lat if c.get('start') != 'perp' and c['frame'] not in ('nearleft', 'nearbottom', 'large', 'largeleft', 'largebottom')]
     lingeo = [c for c in near if c['mode'] == 'linear_geometry']
     near = [c for c in near if c['mode'] != 'linear_geometry']
